@@ -271,3 +271,68 @@ def text_family(rep, n_seq, n_mut, n_gen, nproc=16, label="text"):
         d["source"] = minimise(d["source"], re.sub(r"[\[.].*", "", d["what"][:48]) if d["what"].startswith("stories differ") else d["what"].split(":")[0])
         result.append(d)
     return result, len(dis)
+
+
+# ---------------------------------------------------------------------------------------------- C12: the initial passage
+
+_HEAD = re.compile(r"^:: ([A-Za-z_][A-Za-z0-9_.]*)")
+
+
+def initial_passage_family(rep, n):
+    """C12: a story the compiler returns names an existing initial passage: the one given by @start, else "Start", else the
+    FIRST passage of the source.  The expectation is read off the source text independently (header lines in order)."""
+    stories = fam_total.repo_stories()
+    bad = checked = 0
+    from bardic.compiler.compiler import BardCompiler
+    for idx in range(n):
+        r = rng_for(rep.seed, "initial", idx)
+        k = r.random()
+        if k < 0.5:
+            names = r.sample(["Zeta", "Mid", "Alpha", "beta", "_x", "Scene.One", "Start", "B2"], r.randint(1, 5))
+            if r.random() < 0.6 and "Start" in names:
+                names.remove("Start")
+            lines = []
+            if r.random() < 0.3 and names:
+                lines.append("@start " + r.choice(names))
+            for nm in names:
+                lines += [":: " + nm + r.choice(["", " ^t", " // c"]), r.choice(["hello", "{1}", "~ x = 1"]),
+                          r.choice(["", "+ [go] -> " + r.choice(names)])]
+            text = "\n".join(lines) + "\n"
+        elif k < 0.75:
+            text = fam_total.gen_sequence(r, 6)
+        else:
+            text = fam_total.mutate(r, stories[idx % len(stories)][1])
+        if "py" in text:
+            continue            # header-looking lines inside Python blocks are code: the textual expectation would be unsound
+        try:
+            with quiet(), time_limit(10):
+                story = BardCompiler().compile_string(text)
+        except BaseException as e:  # noqa
+            if isinstance(e, KeyboardInterrupt):
+                raise
+            continue
+        checked += 1
+        heads = [m.group(1) for m in (_HEAD.match(l) for l in text.split("\n")) if m]
+        heads = [h for h in heads if h in story["passages"]]
+        starts = [l.strip()[7:].strip() for l in text.split("\n") if l.strip().startswith("@start ")]
+        starts = [re.sub(r"\s*//.*$", "", s_) for s_ in starts]
+        exp = starts[-1] if starts else ("Start" if "Start" in story["passages"] else (heads[0] if heads else None))
+        got = story.get("initial_passage")
+        problems = []
+        if got not in story["passages"]:
+            problems.append(f"initial passage {got!r} is not a passage of the story")
+        elif exp is not None and exp in story["passages"] and got != exp and len(set(starts)) <= 1:
+            problems.append(f"initial passage is {got!r}; @start / Start / first-passage rule gives {exp!r}")
+        for key, p in story["passages"].items():
+            if p.get("id") != key:
+                problems.append(f"passage keyed {key!r} has id {p.get('id')!r}")
+        try:
+            if json.loads(json.dumps(story, allow_nan=False)) != story:
+                problems.append("the story changes in a JSON round trip")
+        except (TypeError, ValueError) as e:
+            problems.append(f"the story is not plain JSON data: {e}")
+        for pr in problems:
+            bad += 1
+            rep.violations.append({"cls": None, "family": "c12-initial", "what": pr, "source": text})
+    rep.coverage.setdefault("families", {})["c12-initial"] = {"cases": n, "compiled": checked, "failing": bad}
+    rep.coverage["evaluations"] = rep.coverage.get("evaluations", 0) + checked
